@@ -2,6 +2,7 @@ package main
 
 import (
 	"fmt"
+	"strings"
 	"path/filepath"
 	"sort"
 
@@ -32,6 +33,28 @@ func runC13Ns(c *Ctx, in M) (out interface{}) {
 				res = append(res, "err")
 			} else {
 				res = append(res, p)
+			}
+		case "assertNested":
+			// forced schedule: while one caller is in front of a lock acquisition of AssertPrefixMappingForExpansion
+			// (a point inserted by tools/instr), a second caller runs the whole function (usually for the same expansion)
+			fired, inner := false, "-"
+			server.VerifAtPoint(op[3].(string), 1, func() {
+				fired = true
+				q, err := h.Store.NamespaceManager.AssertPrefixMappingForExpansion(op[2].(string))
+				if err != nil {
+					inner = "err"
+				} else {
+					inner = q
+				}
+			})
+			p, err := h.Store.NamespaceManager.AssertPrefixMappingForExpansion(op[1].(string))
+			server.VerifAtPoint("", 0, nil)
+			if err != nil {
+				p = "err"
+			}
+			res = append(res, []interface{}{p, inner, fired})
+			if fired {
+				c.Count("c13.nested-assert", 1)
 			}
 		case "compact":
 			p, err := h.Store.GetNamespacedIdentifierFromURI(op[1].(string))
@@ -140,6 +163,17 @@ func runC13Ids(c *Ctx, in M) (out interface{}) {
 	return res
 }
 
+// nsPoints: the schedule points in front of the lock acquisitions of AssertPrefixMappingForExpansion.
+func nsPoints() []string {
+	res := []string{}
+	for _, p := range loadCrashPoints().Points["AssertPrefixMappingForExpansion"] {
+		if strings.Contains(p, ":pre") {
+			res = append(res, p)
+		}
+	}
+	return res
+}
+
 func genC13(c *Ctx) {
 	exps := []string{"http://a.io/x/", "http://a.io/x#", "https://b.org/", "http://a.io/", "http://c.net/p/q/", "http://c.net/p/q#", "http://d/"}
 	locals := []string{"e1", "", "a:b", "x/y", "p#q", "1", "ns3:z", "☃"}
@@ -153,7 +187,16 @@ func genC13(c *Ctx) {
 		for k := 0; k < 4+c.Rng.Intn(12); k++ {
 			switch r := c.Rng.Intn(10); {
 			case r < 3:
-				ops = append(ops, []interface{}{"assert", exps[c.Rng.Intn(len(exps))]})
+				e := exps[c.Rng.Intn(len(exps))]
+				if pts := nsPoints(); len(pts) > 0 && c.Rng.Intn(2) == 0 {
+					e2 := e
+					if c.Rng.Intn(4) == 0 {
+						e2 = exps[c.Rng.Intn(len(exps))]
+					}
+					ops = append(ops, []interface{}{"assertNested", e, e2, pts[c.Rng.Intn(len(pts))]})
+				} else {
+					ops = append(ops, []interface{}{"assert", e})
+				}
 			case r < 7:
 				ops = append(ops, []interface{}{"compact", exps[c.Rng.Intn(len(exps))] + locals[c.Rng.Intn(len(locals))]})
 			case r < 8:
